@@ -638,6 +638,13 @@ func (x *Exec) Key() string {
 	var pairs []string
 	seen := map[string]bool{}
 	toks := append(x.A.Tokens(), x.B.Tokens()...)
+	toks = append(toks, x.W.LN[IDA].Tokens()...)
+	toks = append(toks, x.W.LN[IDB].Tokens()...)
+	for _, c := range []*world.Chain{x.W.Btc, x.W.Lbtc} {
+		for _, id := range c.TxOrder() {
+			toks = append(toks, [2]string{"tx", id})
+		}
+	}
 	if x.Cfg.ExtraTokens != nil {
 		toks = append(toks, x.Cfg.ExtraTokens(x)...)
 	}
